@@ -1954,4 +1954,54 @@ theorem Message.serialize_unwritten (m : Message) (buf out : Bytes) (i : Nat) (h
   simp only [List.getElem?_take, hlt, if_true, List.getElem?_drop]
 
 
+/-! ### the 16-bit messageLength limit -/
+
+
+/-- what the library can serialise is shorter than 2^16 octets, and the output has exactly `wire_size` octets -/
+theorem Message.serialize_size (m : Message) (buf out : Bytes) (h : m.serialize buf = .ok out) :
+    out.length = 34 + m.body.wireSize + m.suffix.length ∧ out.length < 2 ^ 16 := by
+  unfold Message.serialize at h
+  split at h; · cases h
+  split at h; · cases h
+  cases hw : TlvSet.wireSize m.suffix with
+  | error e => simp [hw, bind, Except.bind] at h
+  | ok sfx =>
+  have hsfx : sfx = m.suffix.length := by
+    unfold TlvSet.wireSize at hw; split at hw
+    · cases hw
+    · cases hw; rfl
+  cases hhs : m.header.serialize m.body.type (m.body.wireSize + sfx) with
+  | error e => simp [hw, hhs, bind, Except.bind] at h
+  | ok hb =>
+  cases hbs : m.body.serialize ((buf.drop 34).take m.body.wireSize) with
+  | error e => simp [hw, hhs, hbs, bind, Except.bind] at h
+  | ok bb =>
+  simp only [hw, hhs, hbs, bind, Except.bind] at h
+  split at h; · cases h
+  simp only [pure, Except.pure, Except.ok.injEq] at h
+  subst h
+  have h1 := Header.serialize_length _ _ _ _ hhs
+  have h2 := Body.serialize_length _ _ _ hbs
+  have h3 : m.body.wireSize + sfx + 34 < 2 ^ 16 := by
+    unfold Header.serialize at hhs
+    split at hhs
+    · cases hhs
+    · omega
+  rw [List.length_append, List.length_append]
+  omega
+
+/-- a message of 2^16 octets or more is refused (`Error::Invalid`: the checked `u16` conversion of
+    messageLength), whatever the buffer, as soon as the buffer passes the two split checks -/
+theorem Message.serialize_oversize (m : Message) (buf : Bytes) (hbuf : 34 + m.body.wireSize ≤ buf.length)
+    (heven : m.suffix.length % 2 = 0) (hbig : 2 ^ 16 ≤ 34 + m.body.wireSize + m.suffix.length) :
+    m.serialize buf = .error .invalid := by
+  unfold Message.serialize
+  rw [if_neg (by omega), if_neg (by omega)]
+  unfold TlvSet.wireSize
+  rw [if_neg (by omega)]
+  simp only [bind, Except.bind]
+  unfold Header.serialize
+  rw [if_pos (by omega)]
+
+
 end NtpVerif.PtpWire
